@@ -14,8 +14,11 @@ it returns the new position and the value, failure by exception is `Res.fail`.  
 
 Fuel: one unit per `process` call / loop iteration, i.e. fuel bounds the DEPTH of the call
 tree.  `fuel = 0` gives `diverge` (Python: an endless `while True` in Many/Until over a
-non-consuming success, or unbounded recursion through a Forward).  `IV.Peg.run_mono` shows more
-fuel never changes a non-diverge answer; `run_complete` shows every PEG derivation is reached.
+non-consuming success, or unbounded recursion through a Forward).  Props.C19: `run_complete` shows
+every PEG derivation is reached at every large enough fuel, `run_fuel_independent` that enough fuel
+never changes an answer, and `no_divergence` that for `WellFormed` grammars (below: repetitions
+consume, rule bodies consume before re-entering a rule) the computable fuel `bound rules t n`
+suffices, so `diverge` is never the reason for an answer there.
 
 Classes mirrored (line ranges of insights/parsr/__init__.py):
   AnyChar 365-372, Char 375-395, InSet 403-429, String 437-476, Literal 479-543, EOF 1045-1061
@@ -35,22 +38,44 @@ inductive Val where
   | str (s : Str)             -- str
   | list (vs : List Val)      -- list
   | sentinel                  -- Parser._NO_MATCH
+  | bool (b : Bool)           -- True / False (Literal values of the JSON grammar)
+  | float (text : Str)        -- float(text): the conversion itself is NOT modelled, the value is its argument
+  | dict (items : List Val)   -- dict in insertion order; every item is `list [key, value]`, keys distinct
+  | obj (cls : Str) (fields : List Val)   -- instance of a plain class: taglang's Eq / Regex / Not / And / Or
 deriving Repr, Inhabited
 
 mutual
-/-- Python `==` on these values (no bool / float in the fragment, so it is structural) -/
+/-- Python `==` on these values, structural.  Exact on None/int/str/list/sentinel (the fragment the
+random grammars use); on bool-vs-int, float and dict (order-insensitive in Python) it is only an
+approximation — no modelled function compares such values. -/
 def Val.beq : Val → Val → Bool
   | .none, .none => true
   | .int a, .int b => a == b
   | .str a, .str b => a == b
   | .list a, .list b => Val.beqList a b
   | .sentinel, .sentinel => true
+  | .bool a, .bool b => a == b
+  | .float a, .float b => a == b
+  | .dict a, .dict b => Val.beqList a b
+  | .obj c a, .obj d b => c == d && Val.beqList a b
   | _, _ => false
 def Val.beqList : List Val → List Val → Bool
   | [], [] => true
   | a :: as, b :: bs => Val.beq a b && Val.beqList as bs
   | _, _ => false
 end
+
+/-- Python truthiness (`if x:`) -/
+def Val.truthy : Val → Bool
+  | .none => false
+  | .int n => n != 0
+  | .str s => !s.isEmpty
+  | .list vs => !vs.isEmpty
+  | .sentinel => true
+  | .bool b => b
+  | .float _ => true          -- not modelled (0.0 is falsy); no modelled function tests a float
+  | .dict items => !items.isEmpty
+  | .obj _ _ => true
 
 /-- outcome of calling a mapped / lifted Python function -/
 inductive FnRes where
@@ -59,8 +84,10 @@ inductive FnRes where
   | raise            -- raised anything else
 deriving Repr
 
-/-- the table of mapped functions used by generated grammars (harness/c19.py FUNCS holds the
-Python originals).  Theorems never unfold `Fn.apply`: they hold for every function table. -/
+/-- the table of mapped functions: the first eight are used by generated grammars (harness/c19.py
+FUNCS holds the Python originals), the rest are the functions of the SHIPPED grammars
+(translate/grammars.py maps the live function objects to these entries).
+Theorems never unfold `Fn.apply`: they hold for every function table. -/
 inductive Fn where
   | ident
   | join                      -- "".join(x)
@@ -70,12 +97,67 @@ inductive Fn where
   | raiseIf (v : Val)         -- raise ValueError if x == v else x
   | accumulate                -- Parser._accumulate(first, rest)   (lifted, two arguments)
   | pair                      -- lambda *a: list(a)                (lifted, any arity)
+  | makeNumber                -- parsr._make_number(sign, int_part, frac_part)        (lifted)
+  | mkDict                    -- json_parser: lambda res: dict((k, v) for (k, v) in res)
+  | mkEq                      -- taglang.Eq      (the class used as a function)
+  | mkRegex                   -- taglang.Regex
+  | negate                    -- taglang.negate
+  | oper                      -- taglang.oper
 deriving Repr
 
 def allStr : List Val → Option Str
   | [] => some []
   | .str s :: vs => (allStr vs).map (s ++ ·)
   | _ :: _ => none
+
+/-- `a, b = x` for a list or a str of length two (unpacking a dict / other iterables is not modelled) -/
+def unpack2 : Val → Option (Val × Val)
+  | .list [a, b] => some (a, b)
+  | .str [a, b] => some (.str [a], .str [b])
+  | _ => none
+
+def isDigitAscii (c : Char) : Bool := '0' ≤ c && c ≤ '9'
+def digitsVal (ds : Str) : Nat := ds.foldl (fun acc c => acc * 10 + (c.toNat - '0'.toNat)) 0
+
+/-- `float(tmp) if "." in tmp else int(tmp)` — exact on `-?digits` and `-?digits.digits` (all the
+Number grammar can produce); any other string is rejected by the model (Python accepts a few more
+spellings: blanks, '+', '_', exponents, which the grammar cannot produce). -/
+def numberOf (tmp : Str) : FnRes :=
+  let body := match tmp with | '-' :: r => r | r => r
+  if tmp.contains '.' then
+    match body.span isDigitAscii with
+    | (i, '.' :: fr) => if !i.isEmpty && !fr.isEmpty && fr.all isDigitAscii then .ok (.float tmp) else .raise
+    | _ => .raise
+  else if !body.isEmpty && body.all isDigitAscii then
+    .ok (.int (match tmp with | '-' :: _ => - (digitsVal body : Int) | _ => (digitsVal body : Int)))
+  else .raise
+
+def hashable : Val → Bool
+  | .list _ => false
+  | .dict _ => false
+  | _ => true
+
+/-- `d[k] = v` on the insertion-ordered item list -/
+def dictSet (k v : Val) : List Val → List Val
+  | [] => [.list [k, v]]
+  | .list [k', v'] :: rest => if k'.beq k then .list [k', v] :: rest else .list [k', v'] :: dictSet k v rest
+  | x :: rest => x :: dictSet k v rest
+
+def dictOf : List Val → List Val → Option (List Val)
+  | [], acc => some acc
+  | x :: xs, acc => match unpack2 x with
+    | some (k, v) => if hashable k then dictOf xs (dictSet k v acc) else none
+    | none => none
+
+/-- the `for op, right in rest` loop of taglang.oper; `none` = it raised -/
+def operLoop : List Val → Val → Option Val
+  | [], left => some left
+  | x :: xs, left => match unpack2 x with
+    | some (.str op, right) =>
+      let l1 := if op == ['&'] then Val.obj "And".toList [left, right] else left
+      let l2 := if op == [] || op == [','] || op == ['|'] || op == [',', '|'] then Val.obj "Or".toList [l1, right] else l1
+      operLoop xs l2
+    | _ => none               -- not unpackable, or `op in ",|"` with a non-str op: TypeError
 
 /-- a mapped function receives the child's value; a lifted function receives `list args` -/
 def Fn.apply : Fn → Val → FnRes
@@ -93,6 +175,27 @@ def Fn.apply : Fn → Val → FnRes
       .ok (.list ((match first with | .sentinel => [] | f => [f]) ++ rest))
   | .accumulate, _ => .raise
   | .pair, v => .ok v
+  | .makeNumber, .list [.str sign, .str ip, frac] =>
+      -- tmp = sign + int_part + ("".join(frac_part) if frac_part else "")
+      if frac.truthy then
+        match Fn.apply .join frac with
+        | .ok (.str fs) => numberOf (sign ++ ip ++ fs)
+        | _ => .raise
+      else numberOf (sign ++ ip)
+  | .makeNumber, _ => .raise
+  | .mkDict, .list items => match dictOf items [] with | some d => .ok (.dict d) | none => .raise
+  | .mkDict, .str [] => .ok (.dict [])
+  | .mkDict, _ => .raise
+  | .mkEq, v => .ok (.obj "Eq".toList [v])
+  | .mkRegex, .str s => .ok (.obj "Regex".toList [.str s])     -- re.compile(s); invalid patterns (re.error) not modelled
+  | .mkRegex, _ => .raise
+  | .negate, v => match unpack2 v with
+      | some (op, p) => .ok (if op.truthy then .obj "Not".toList [p] else p)
+      | none => .raise
+  | .oper, v => match unpack2 v with
+      | some (left, .list rest) => (match operLoop rest left with | some r => .ok r | none => .raise)
+      | some (left, .str []) => .ok left
+      | _ => .raise
 
 def lowerAscii (c : Char) : Char :=
   if 'A' ≤ c ∧ c ≤ 'Z' then Char.ofNat (c.toNat + 32) else c
@@ -377,5 +480,171 @@ def Term.tagFreeL : List Term → Bool
   | [] => true
   | t :: ts => t.tagFree && Term.tagFreeL ts
 end
+
+/-! ### the syntactic discipline of grammars that terminate (what harness/c19.py's generator enforces) -/
+
+def Prim.consuming : Prim → Bool
+  | .anyChar => true
+  | .char _ => true
+  | .inSet _ => true
+  | .string _ _ m => decide (1 ≤ m)
+  | .literal cs _ _ => !cs.isEmpty
+  | .eof => false
+
+mutual
+/-- syntactic: the term cannot succeed without consuming input (a Forward counts as non-consuming) -/
+def Term.consuming : Term → Bool
+  | .prim p => p.consuming
+  | .seq ts => Term.consumingAny ts
+  | .choice ts => Term.consumingAll ts
+  | .many t l => decide (1 ≤ l) && t.consuming
+  | .until _ _ => false
+  | .opt _ _ => false
+  | .followedBy a _ => a.consuming
+  | .notFollowedBy a _ => a.consuming
+  | .keepLeft a b => a.consuming || b.consuming
+  | .keepRight a b => a.consuming || b.consuming
+  | .map t _ => t.consuming
+  | .lift _ ts => Term.consumingAny ts
+  | .wrapper t => t.consuming
+  | .ref _ => false
+  | .startTag t => t.consuming
+  | .endTag t _ => t.consuming
+def Term.consumingAny : List Term → Bool
+  | [] => false
+  | t :: ts => t.consuming || Term.consumingAny ts
+def Term.consumingAll : List Term → Bool
+  | [] => true
+  | t :: ts => t.consuming && Term.consumingAll ts
+end
+
+mutual
+/-- `wf g t`: repetition bodies (Many / Until) are consuming, and — when `g = false`, i.e. nothing
+has been consumed yet since the enclosing rule was entered — every Forward reference sits behind
+something consuming (no left recursion).  `g = true`: references are allowed anywhere. -/
+def Term.wf : Bool → Term → Bool
+  | _, .prim _ => true
+  | g, .seq ts => Term.wfSeq g ts
+  | g, .choice ts => Term.wfAll g ts
+  | g, .many t _ => t.consuming && t.wf g && t.wf true
+  | g, .until t p => t.consuming && t.wf g && t.wf true && p.wf g && p.wf true
+  | g, .opt t _ => t.wf g
+  | g, .followedBy a b => a.wf g && b.wf (g || a.consuming)
+  | g, .notFollowedBy a b => a.wf g && b.wf (g || a.consuming)
+  | g, .keepLeft a b => a.wf g && b.wf (g || a.consuming)
+  | g, .keepRight a b => a.wf g && b.wf (g || a.consuming)
+  | g, .map t _ => t.wf g
+  | g, .lift _ ts => Term.wfSeq g ts
+  | g, .wrapper t => t.wf g
+  | g, .ref _ => g
+  | g, .startTag t => t.wf g
+  | g, .endTag t _ => t.wf g
+def Term.wfSeq : Bool → List Term → Bool
+  | _, [] => true
+  | g, t :: ts => t.wf g && Term.wfSeq (g || t.consuming) ts
+def Term.wfAll : Bool → List Term → Bool
+  | _, [] => true
+  | g, t :: ts => t.wf g && Term.wfAll g ts
+end
+
+/-- a grammar is well formed: rule bodies consume before they re-enter a rule, repetitions consume -/
+def WellFormed (rules : List Term) (t : Term) : Bool := t.wf true && rules.all (fun b => b.wf false)
+
+mutual
+def Term.size : Term → Nat
+  | .prim _ => 1
+  | .seq ts => 1 + Term.sizeL ts
+  | .choice ts => 1 + Term.sizeL ts
+  | .many t _ => 1 + t.size
+  | .until t p => 1 + t.size + p.size
+  | .opt t _ => 1 + t.size
+  | .followedBy a b => 1 + a.size + b.size
+  | .notFollowedBy a b => 1 + a.size + b.size
+  | .keepLeft a b => 1 + a.size + b.size
+  | .keepRight a b => 1 + a.size + b.size
+  | .map t _ => 1 + t.size
+  | .lift _ ts => 1 + Term.sizeL ts
+  | .wrapper t => 1 + t.size
+  | .ref _ => 1
+  | .startTag t => 1 + t.size
+  | .endTag t _ => 1 + t.size
+def Term.sizeL : List Term → Nat
+  | [] => 0
+  | t :: ts => 1 + t.size + Term.sizeL ts
+end
+
+mutual
+/-- fuel that suffices for `t` when at most `n` characters remain and `k` suffices for any Forward -/
+def Term.cost (k n : Nat) : Term → Nat
+  | .prim _ => 1
+  | .seq ts => 1 + Term.costL k n ts
+  | .choice ts => 1 + Term.costL k n ts
+  | .many t _ => 2 + n + t.cost k n
+  | .until t p => 2 + n + t.cost k n + p.cost k n
+  | .opt t _ => 1 + t.cost k n
+  | .followedBy a b => 1 + a.cost k n + b.cost k n
+  | .notFollowedBy a b => 1 + a.cost k n + b.cost k n
+  | .keepLeft a b => 1 + a.cost k n + b.cost k n
+  | .keepRight a b => 1 + a.cost k n + b.cost k n
+  | .map t _ => 1 + t.cost k n
+  | .lift _ ts => 1 + Term.costL k n ts
+  | .wrapper t => 1 + t.cost k n
+  | .ref _ => 1 + k
+  | .startTag t => 1 + t.cost k n
+  | .endTag t _ => 1 + t.cost k n
+def Term.costL (k n : Nat) : List Term → Nat
+  | [] => 1
+  | t :: ts => 1 + t.cost k n + Term.costL k n ts
+end
+
+def sumCost (k n : Nat) : List Term → Nat
+  | [] => 0
+  | b :: bs => b.cost k n + sumCost k n bs
+
+/-- fuel that suffices for any Forward reference when at most `r` characters remain -/
+def refFuel (rules : List Term) (n : Nat) : Nat → Nat
+  | 0 => 1 + sumCost 0 n rules
+  | r + 1 => 1 + sumCost (refFuel rules n r) n rules
+
+/-- the fuel bound of `no_divergence`: computable from the term, the rule table and the number of
+characters that remain -/
+def bound (rules : List Term) (t : Term) (n : Nat) : Nat := t.cost (refFuel rules n n) n
+
+/-- taglang's `Predicate.test(values)` on the objects the translated grammar builds.
+Regex: `re.search` is modelled as substring search (exact for patterns without metacharacters). -/
+def isInfix (p : Str) : Str → Bool
+  | [] => p.isEmpty
+  | c :: cs => p.isPrefixOf (c :: cs) || isInfix p cs
+
+def evalPred (tags : List Str) : Nat → Val → Option Bool
+  | 0, _ => none
+  | fuel + 1, .obj cls fields =>
+    if cls == "Eq".toList then
+      match fields with
+      | [.str s] => some (tags.contains s)
+      | [_] => some false
+      | _ => none
+    else if cls == "Regex".toList then
+      match fields with
+      | [.str p] => some (tags.any (isInfix p))
+      | _ => none
+    else if cls == "Not".toList then
+      match fields with
+      | [p] => (evalPred tags fuel p).map (!·)
+      | _ => none
+    else if cls == "And".toList then
+      match fields with
+      | [l, r] => match evalPred tags fuel l, evalPred tags fuel r with
+        | some a, some b => some (a && b)
+        | _, _ => none
+      | _ => none
+    else if cls == "Or".toList then
+      match fields with
+      | [l, r] => match evalPred tags fuel l, evalPred tags fuel r with
+        | some a, some b => some (a || b)
+        | _, _ => none
+      | _ => none
+    else none
+  | _ + 1, _ => none
 
 end IV.Peg
